@@ -49,13 +49,10 @@ func checkC09(c *Ctx) {
 	c.Rule("C09.R9", "model evaluation with symbolic values: a +towgs84 list is classified as proj4js does (first three values not all zero: 3-parameter; seven values with the last four not all zero: 7-parameter, whatever the first three; otherwise no shift) and the rotations and the scale are converted from arc seconds and parts per million exactly once")
 	c09datumModel(c, a.js)
 	c.Floor("C09.R9", 6)
-	a.twoDHop()
 	c.exhaust = true
 	a.helmert()
-	// R8: the pipeline around the datum shift (C08.R2's analysis, filed here)
-	c.Alias("C08.R2", "C09.R8")
-	c08mirror(c)
-	c.Alias("C08.R2", "")
+	// R8 / R4: the pipeline around the datum shift, by model evaluation
+	c08pipeModel(c, "C09.R8", "C09.R4", "")
 	c.Floor("C09.R8", 4)
 	a.eccentricity()
 	c.Floor("C09.R7", 4)
